@@ -436,6 +436,10 @@ def rule_counts(ctx):
                                     const = False
                                 # `counts.get_mut(c)`, `counts.iter_mut()`, `counts.mapv_inplace(..)`: a method taking the local by `&mut`
                                 if y.get("k") == "MethodCall" and peel_refs(y["recv"]).get("local") == root["local"] and ((c.ty(y["recv"].get("at")) or "").startswith("&mut") or y["name"].endswith("_mut") or y["name"].endswith("_inplace") or y["name"] in ("assign", "fill", "scaled_add", "zip_mut_with")):
+                                    # `counts.slice_mut(..).fill(F::one())` / `counts.fill(1.)`: writing a constant leaves a constant
+                                    filler = y if y["name"] == "fill" else next((z for z in walk(fn["body"]) if z.get("k") == "MethodCall" and z["name"] == "fill" and peel_refs(z["recv"]) is y), None)
+                                    if filler is not None and filler.get("args") and not any(z.get("k") == "Path" and "local" in z for z in walk(filler["args"][0])):
+                                        continue
                                     const = False
                 if const:
                     res.violate("%s : constant-cluster-count" % key, "a model is returned whose cluster_count is the constant array `%s`: it is not the number of observations the returned centroids attract (duplicated observations all go to the first of identical centroids)" % Render(c).e(v)[:40], fn_loc(fn, n["ln"]))
